@@ -17,6 +17,15 @@ SIM_NOTE = ("Trusted base: the simulated kernel / psutil.Popen fake "
             "EPERM, job-control stops. Search never proves absence.")
 
 TABLE = {
+ "C03": dict(
+  engine="E1-simworld", category="exploration", design_ref="DESIGN.md §4 C03",
+  technique="property-based testing over generated termination histories with worker reaction delays placed around graceful_timeout; invariant oracle over the simulated kernel's per-pid signal log with exact virtual timestamps",
+  text=("Every termination episode found in a generated history (stop, "
+        "restart, decr, reload, kill with overrides, max_age) is checked on "
+        "the kernel signal log: stop signal first, SIGKILL never before "
+        "graceful_timeout and never long after a timely exit, always within "
+        "one polling step otherwise, children included with stop_children."),
+  note=SIM_NOTE + " Episodes are opened by the watcher's published 'kill' event."),
  "C02": dict(
   engine="E1-simworld", category="fault_enumeration", design_ref="DESIGN.md §4 C02",
   technique="fault enumeration (a worker death injected at every kernel-call boundary of every stop/restart/rm/quit scenario of a grid) plus Hypothesis-generated histories, on the real daemon over the simulated kernel; oracle = kernel process table at the instant the reply is sent",
